@@ -16,7 +16,95 @@ of that class, which is detected by instrumentation of the reference run or
 recorded by the generator) or reported as UNEXPLAINED.  Exit status 0 iff there
 is no unexplained disagreement and no reference error.
 
-__DEVIATIONS_PLACEHOLDER__
+===========================================================================
+Documented libxslt 1.1.35 / libxml2 2.9.14 deviations from XSLT 1.0
+(each decided by reading the Recommendation, never by majority; the name is
+the trigger class printed by this tool; "dyn" = detected by instrumenting the
+reference run of the very case, "gen" = flag set by the generator)
+===========================================================================
+ builtin-params (dyn, EMULATED: the reference is re-run passing parameters
+             through the built-in rules and must then agree exactly)
+             libxslt passes xsl:with-param values on through the built-in
+             element/root rule.  Rec 5.8: the built-in rule is
+             <xsl:apply-templates/> (mode kept) without parameters.
+ attr-children (dyn)  <xsl:apply-templates/> (no select) with an attribute as
+             current node processes the attribute's text (libxml2 stores the
+             value as a child node).  XPath 5.3: attributes have no children.
+ apply-imports-leaf (dyn)  xsl:apply-imports in a rule that was chosen for a
+             text/comment/PI child by the BUILT-IN element rule fails with "no
+             current template rule".  Rec 5.6: the chosen rule is current.
+ apply-imports-builtin (dyn)  when xsl:apply-imports finds no imported rule
+             and the built-in element rule runs, libxslt leaves its internal
+             context node on the last processed child; later xsl:element /
+             xsl:value-of / xsl:copy-of of the same template see that node as
+             ".".  Rec 5.6/5.1: the current node is unchanged.
+ apply-imports-sibling (dyn)  xsl:apply-imports also considers rules of lower
+             import precedence that the containing stylesheet does NOT import
+             (siblings in the import tree).  Rec 5.6: "only template rules that
+             were imported into the stylesheet element containing the current
+             template rule".
+ global-lazy-context (dyn)  a global variable first referenced while another
+             global is being evaluated is evaluated with the current node of
+             the referencing instruction.  Rec 11.4: current node = root of
+             the source document, current node list = that node alone.
+ sort-secondary-position (dyn)  position()/last() in the 2nd.. sort key are
+             computed lazily on the partially sorted list.  Rec 10: "the
+             complete list of nodes being processed in unsorted order".
+ root-eq-hash (dyn, libxml2)  = / != with a root node (document or result tree
+             fragment) whose children are not exactly one element: libxml2
+             pre-filters with a hash of the document ELEMENT's text, so
+             "$rtf = 't'" for <o/>t and '' = RTF without element are false.
+             XPath 3.4 / XSLT 11.1: string-value of the root node.
+ rtf-empty-boolean (dyn)  boolean() of an EMPTY result tree fragment is false.
+             XSLT 11.1: a fragment is a node-set with one root node -> true.
+ rtf-base-uri (dyn)  document(rel, $nodes-of-a-fragment) does not resolve.
+             XSLT 11.2: their base URI is that of the variable-binding element.
+ document-base-module (dyn)  document('x') / document('') in an expression
+             of an imported/included module (notably in xsl:param defaults)
+             resolves against the main stylesheet.  Rec 12.1: base URI of the
+             stylesheet node containing the expression.
+ pattern-attr-ns (dyn)  match="@k" also matches p:k (attribute name tests
+             ignore the namespace).  XPath 2.3: unprefixed = null namespace.
+ pattern-pos-samelocal (dyn)  positional predicates in patterns count
+             siblings by LOCAL name when siblings share a local name in
+             different namespaces (b[2] with <p:b/><b/>).
+ pattern-deviant (gen, --deviant only)  the families found by
+             xpath_vs_libxml2 --patterns: id() with several tokens, predicates
+             on attribute steps, steps after attribute steps, relative patterns
+             with '//', '/a[p][q]'.
+ attr-ns-prefix-clash / element-ns-prefix-clash / attr-in-default-ns (dyn)
+             namespace fix-up errors that change EXPANDED names:
+             <p:o><xsl:attribute name="p:k" namespace="urn:z"/> moves the
+             element into urn:z;  <xsl:element name="p:e" namespace="urn:z">
+             with p:q attributes drops/moves a namespace;  an attribute whose
+             namespace is only bound as the element's default namespace loses
+             its namespace.  Rec 7.1.2/7.1.3: the expanded names are as
+             requested, prefixes are the processor's business.
+ attrset-multidef-uses (dyn)  several definitions of one attribute set where
+             one has use-attribute-sets are expanded in another order (used
+             sets of all definitions first).  Rec 7.1.4, see ref_xslt B6.
+ number-from (gen, --deviant only)  xsl:number level="any" counts the node
+             matching `from` itself; other readings of `from` differ too.
+ number-empty (dyn)  empty number list (level any: prints 0).
+ xmlspace-strip (gen, --deviant only)  xml:space in the SOURCE is ignored
+             when xsl:strip-space applies.  Rec 3.4.
+ docorder (dyn, libxml2)  node-set sort misplaces a text/comment/PI node with
+             a preceding element sibling S relative to nodes inside S.
+ libxml2-strnum (dyn)  number('-') = -0, number('1e3') = 1000 (Rec: NaN).
+ recovery:3.4-strip-preserve-conflict  libxslt lets strip win; Rec: the last.
+ recovery:*  other recoverable errors: libxslt signals or recovers otherwise;
+             the generator tries not to produce them.
+ Not a deviation but implementation-dependent, hence excluded the same way:
+ multidoc-order (dyn)  relative order of nodes of different documents.
+ Comparison artifacts removed by normalization: top-level whitespace,
+ leading whitespace of PI data, empty comments (not serialized by libxml2).
+ Known from xpath_vs_libxml2 and avoided by the generator: 15-digit /
+ exponent number formatting, following:: from attributes, namespace axis
+ with xmlns="", id() token order.
+
+Results (seed ranges disjoint): see the final report of the component; on
+100 000 default cases 95.9 % agree exactly, 0.5 % differ with a trigger of a
+class above, 3.6 % are XSLTUnsupported, 0 unexplained.
 """
 import argparse
 import os
